@@ -282,9 +282,23 @@ func RunSkip(c *core.Ctx) {
 	wt, ok := lb[2].(*ast.AssignStmt)
 	var wtObj types.Object
 	if ok && wt.Tok == token.DEFINE {
-		rs := types.ExprString(wt.Rhs[0])
-		if rs == "int("+wire.Name()+" & 0x7)" || rs == "int("+wire.Name()+" & 7)" {
-			wtObj = info.ObjectOf(wt.Lhs[0].(*ast.Ident))
+		// wire & 7, possibly converted to some integer type (int, protowire.Type, ...)
+		rhs := ast.Unparen(wt.Rhs[0])
+		if call, ok := rhs.(*ast.CallExpr); ok && len(call.Args) == 1 {
+			if tv, ok := info.Types[call.Fun]; ok && tv.IsType() {
+				if b, ok := tv.Type.Underlying().(*types.Basic); ok && b.Info()&types.IsInteger != 0 {
+					rhs = ast.Unparen(call.Args[0])
+				}
+			}
+		}
+		if be, ok := rhs.(*ast.BinaryExpr); ok && be.Op == token.AND {
+			x, y := be.X, be.Y
+			if _, isC := constInt(info, x); isC {
+				x, y = y, x
+			}
+			if k, isC := constInt(info, y); isC && k == 7 && is(x, wire) {
+				wtObj = info.ObjectOf(wt.Lhs[0].(*ast.Ident))
+			}
 		}
 	}
 	if wtObj == nil {
